@@ -413,14 +413,18 @@ def np_abs(eng, st, args, kwargs):
 @lib('numpy.min', 'numpy.amin')
 def np_min(eng, st, args, kwargs):
     if len(args) > 1 or kwargs:
-        raise OutOfSubset('np.min with axis')
+        a = arr_of(eng, st, args[0])
+        yield reduce_axis(eng, st, a, axis_of(args[1:], kwargs, a.ndim), 'min'), st
+        return
     yield from reduce_minmax(eng, st, args[0], 'min')
 
 
 @lib('numpy.max', 'numpy.amax')
 def np_max(eng, st, args, kwargs):
     if len(args) > 1 or kwargs:
-        raise OutOfSubset('np.max with axis')
+        a = arr_of(eng, st, args[0])
+        yield reduce_axis(eng, st, a, axis_of(args[1:], kwargs, a.ndim), 'max'), st
+        return
     yield from reduce_minmax(eng, st, args[0], 'max')
 
 
